@@ -315,6 +315,19 @@ def rule_e(ctx):
     ok = bool(dict_calls) and all(unique_cond(c) is True for c in dict_calls) and any(
         isinstance(x, ast.Call) and A.dotted(x.func) == 'from_list' and unique_cond(x) is False for x in A.walk_local(fd))
     rep.ob('E', 'core.from_dataset::keyed-only-if-keys-unique', ok, fd, '')
+    # the list fallback (duplicate keys) keeps every example: it is built from the materialised pairs position by position,
+    # never through the dict (which keeps one value per key)
+    dict_vars = {n.targets[0].id for n in A.walk_local(fd) if isinstance(n, ast.Assign) and isinstance(n.targets[0], ast.Name)
+                 and isinstance(n.value, ast.Call) and A.dotted(n.value.func) == 'dict'}
+    for c_ in [x for x in A.walk_local(fd) if isinstance(x, ast.Call) and A.dotted(x.func) == 'from_list' and unique_cond(x) is False]:
+        arg = c_.args[0] if c_.args else None
+        through_dict = arg is not None and any(
+            isinstance(x, ast.Subscript) and ((isinstance(x.value, ast.Name) and x.value.id in dict_vars)
+                                              or (isinstance(x.value, ast.Call) and A.dotted(x.value.func) == 'dict'))
+            for x in list(ast.walk(arg)) + list(ast.walk(flow.expand(arg, fd))))
+        rep.ob('E', 'core.from_dataset::duplicate-key-fallback-keeps-every-example', not through_dict, c_,
+               '' if not through_dict else 'the list for the duplicate-key case is built by looking the keys up in the dict '
+               '(`%s`): a dict keeps the last value per key, so every repeated key yields the same example' % A.short(arg, 60))
 
 
 def run(ctx):
